@@ -250,6 +250,17 @@ example : (∃ ls, roundtripExample.writeTglf (3 / 2) = some ls) ∧
   · exact ⟨0, by norm_num [pow10, roundtripExample]⟩
   · exact ⟨1500, by norm_num [pow10]⟩
 
+-- the theorem instantiated on the example (written lines exist, are read back, and the stored pair is equivalent)
+example : ∃ ls m, roundtripExample.writeTglf (3 / 2) = some ls ∧ readSepcos false ls = some m ∧
+    ∀ pl, SatOpt 0 (m.lookup (4, 17)) pl ↔ Sat (3 / 2) roundtripExample pl := by
+  have hw : ∃ ls, roundtripExample.writeTglf (3 / 2) = some ls := by
+    simp [roundtripExample, SepPair.writeTglf, SZ.isZero, SZ.signbit]
+  obtain ⟨ls, hls⟩ := hw
+  obtain ⟨m, h1, _, h3⟩ := tglf_roundtrip false roundtripExample (3 / 2) ls (by decide)
+    ⟨200500, by norm_num [pow10, roundtripExample]⟩ ⟨0, by norm_num [pow10, roundtripExample]⟩
+    ⟨1500, by norm_num [pow10, roundtripExample]⟩ hls
+  exact ⟨ls, m, hls, h1, h3⟩
+
 /-- Matrix level. For every well-formed matrix (`MatrixOK`: no two records under one key, every
     record filed under `(src, tgt)` with `src < tgt`, gaps and the extra boundary gap multiples of
     `10^-tglfPrecision` of the record): if `SepMatrix::writeTglf` produces the SEPCO lines `ls`, then
@@ -283,8 +294,10 @@ def roundtripHistory : List Op :=
   [.setExtraBdryGap 2, .addSep 1 0 .bdry .east .ineq ⟨false, 200⟩,
    .addSep 0 2 .centre .right .ineq ⟨false, 7⟩, .addSep 0 2 .bdry .down .eq ⟨true, 0⟩]
 
-/-- non-vacuity: the history's state has the values property and is written -/
-example : ValuesOK (runOps true .empty roundtripHistory) ∧
+-- non-vacuity of tglf_roundtrip_reachable AND tglf_roundtrip_matrix: the history's state (two records) has the values
+-- property, is `MatrixOK`, and is written
+example : ValuesOK (runOps true .empty roundtripHistory) ∧ MatrixOK (runOps true .empty roundtripHistory) ∧
+    (runOps true .empty roundtripHistory).pairs.length = 2 ∧
     ∃ ls, (runOps true .empty roundtripHistory).writeTglf = some ls := by
   have hp : (runOps true .empty roundtripHistory).pairs =
       [((0, 1), { src := 0, tgt := 1, xgt := .bdry, xst := .ineq, xgap := ⟨true, 200⟩, ygt := .centre,
@@ -292,15 +305,16 @@ example : ValuesOK (runOps true .empty roundtripHistory) ∧
        ((0, 2), { src := 0, tgt := 2, xgt := .centre, xst := .ineq, xgap := ⟨false, 7⟩, ygt := .bdry,
                   yst := .eq, ygap := ⟨true, 0⟩, flippedRetrieval := false })] := by decide
   have he : (runOps true .empty roundtripHistory).extraBdryGap = 2 := by decide
-  constructor
-  · intro e hmem
+  have hv : ValuesOK (runOps true .empty roundtripHistory) := by
+    intro e hmem
     rw [hp] at hmem
     rw [he]
     simp only [List.mem_cons, List.not_mem_nil, or_false] at hmem
     rcases hmem with rfl | rfl
     · exact ⟨⟨200000, by norm_num [pow10]⟩, ⟨0, by norm_num [pow10]⟩, ⟨2000, by norm_num [pow10]⟩⟩
     · exact ⟨⟨7000, by norm_num [pow10]⟩, ⟨0, by norm_num [pow10]⟩, ⟨2000, by norm_num [pow10]⟩⟩
-  · rw [writeTglf_eq_writeL, hp, he]
-    simp [writeL, SepPair.writeTglf, SZ.isZero, SZ.signbit]
+  refine ⟨hv, matrixOK_of_structOK _ (reachable_structOK true roundtripHistory) hv, by rw [hp]; rfl, ?_⟩
+  rw [writeTglf_eq_writeL, hp, he]
+  simp [writeL, SepPair.writeTglf, SZ.isZero, SZ.signbit]
 
 end AdaptaVerif.Props.C18
